@@ -15,7 +15,7 @@ from drivers.c03 import ALL_CTORS, ALL_LEAVES, INV, _in_range, _nearest_ok, sset
 META = {
     "engine": "data",
     "text": "TypeGrammar.tla (Mode=rpc) generates the parameter/return annotation grammar the statement lists -- scalars, ints "
-            "and floats at explicit Arrow widths, str, bytes, bool, Optional, Enum, list / frozenset / dict (str,int,bytes,Enum "
+            "and floats at explicit Arrow widths, str, bytes, bool, Optional, Enum (plain, StrEnum, IntEnum, (str, Enum) incl. crossed values), list / frozenset / dict (str,int,bytes,Enum "
             "keys) of (optional) scalars, decimal, temporal, nested serializable dataclasses (whose fields follow the "
             "dataclass grammar), tuple/set as documented-unsupported -- with a value class per leaf (min, max, zero, +-0.0, "
             "NaN, empty, non-ASCII, None, enum value != name, out of range, float narrowing) x shape (None/empty/single/multi) "
@@ -225,9 +225,9 @@ def run(ctx: Ctx) -> None:
                "generated (observed by hand: such calls raise ArrowTypeError on the client, never a changed value); below a "
                "dataclass the dataclass grammar applies (C03's known set/map conversion defect is matched by the same family key)")
     scalars = [x for x in ALL_LEAVES if x not in ("schema", "batch")]
-    deep = ["int", "u64", "f32", "str", "bytes", "enum", "dec", "ts_us", "schema"] if quick else ALL_LEAVES[:-2]
+    deep = ["int", "u64", "f32", "str", "bytes", "enum", "senum", "ienum", "dec", "ts_us", "schema"] if quick else ALL_LEAVES[:-2]
     runs = [("depth2", {"Mode": "rpc", "MaxDepth": 2, "Ctors": sset(ALL_CTORS), "Leaves": sset(ALL_LEAVES), "DeepLeaves": sset(deep),
-                        "SigLeaves": sset(["int", "f32", "str", "enum"] if quick else scalars[:-2]), "Variants": sset(["plain"])})]
+                        "SigLeaves": sset(["int", "f32", "str", "enum", "senum", "menum", "ienum"] if quick else scalars[:-2]), "Variants": sset(["plain"])})]
     if not quick:
         d3 = ["int", "enum", "str", "f32", "dec"]
         runs.append(("depth3", {"Mode": "rpc", "MaxDepth": 3, "Ctors": sset(["opt", "list", "set", "map_str", "dc"]),
